@@ -15,7 +15,7 @@ Statement: {p['statement']}
 Quantified over: {p['quantifier']['text']}
 Anchored in: {', '.join(p['anchors'].get('files', []))}
 
-Your task: make ONE small change to the library source (under {wt}/datascope/, .py or .pyx; if you edit the .pyx rebuild with `/venv/bin/python setup.py build_ext --inplace`) that BREAKS this property while the code still imports and the existing test suite still passes. Prefer a change that needs something specific to manifest — a particular input shape or size, an unusual but legitimate input, a multi-step sequence of operations, a tie, a boundary value, state carried between calls, two cooperating sites that each look fine alone — not one that ordinary use would expose at once, and not a crash on every call. It should look like a plausible refactoring slip, off-by-one, wrong axis/index, dropped term, over-eager optimisation, caching, or wrong default, not sabotage. Do not edit tests. Do not change behaviour outside what is needed. Read the anchored source files carefully first and look for a clause of the property, a code path or an input class that the earlier changes below have NOT touched.
+Your task: make ONE small change to the library source (under {wt}/datascope/, .py or .pyx; if you edit the .pyx rebuild with `/venv/bin/python setup.py build_ext --inplace --force`) that BREAKS this property while the code still imports and the existing test suite still passes. Prefer a change that needs something specific to manifest — a particular input shape or size, an unusual but legitimate input, a multi-step sequence of operations, a tie, a boundary value, state carried between calls, two cooperating sites that each look fine alone — not one that ordinary use would expose at once, and not a crash on every call. It should look like a plausible refactoring slip, off-by-one, wrong axis/index, dropped term, over-eager optimisation, caching, or wrong default, not sabotage. Do not edit tests. Do not change behaviour outside what is needed. Read the anchored source files carefully first and look for a clause of the property, a code path or an input class that the earlier changes below have NOT touched.
 
 Earlier rounds already produced the following changes — do NOT repeat any of them or a close variant (same function AND same mechanism):
 {chr(10).join(prev)}
